@@ -271,6 +271,8 @@ func cmdCheck(args []string) int {
 	}
 	nProp, nDis := 0, 0
 	violations := 0
+	violByFn := map[*FnResult][]*Obligation{}
+	var violFirst []*FnResult
 	var undecided, newIDs []string
 	var outs []oblOut
 	os.MkdirAll("/verif/replay/"+*prop, 0o755)
@@ -305,12 +307,19 @@ func cmdCheck(args []string) int {
 		}
 		if !haveBase || inBase[o.ID] {
 			violations++
-			lines = append(lines, reportViolation(*prop, rw.o, rw.r, fnEstablished[rw.r]))
+			// one VIOLATION line per function; the replay file lists every failed obligation
+			violByFn[rw.r] = append(violByFn[rw.r], rw.o)
+			if len(violByFn[rw.r]) == 1 {
+				violFirst = append(violFirst, rw.r)
+			}
 		} else {
 			undecided = append(undecided, o.ID)
 			lines = append(lines, fmt.Sprintf("UNDECIDED obligation=%s verdict=%s (not in baseline; not reported as a violation)", o.ID, o.Result.Verdict))
 			nProp-- // not claimed
 		}
+	}
+	for _, r := range violFirst {
+		lines = append(lines, reportViolation(*prop, violByFn[r], r, fnEstablished[r]))
 	}
 	// baseline ids that no longer exist
 	var missing []string
@@ -368,9 +377,21 @@ func contractHasTag(cs *Contracts, con *FnContract, tag string) bool {
 	return false
 }
 
-func reportViolation(prop string, o *Obligation, r *FnResult, established bool) string {
+func reportViolation(prop string, os_ []*Obligation, r *FnResult, established bool) string {
+	o := os_[0]
+	for _, c := range os_ {
+		if c.Result.Verdict == "sat" {
+			o = c
+			break
+		}
+	}
+	var all []map[string]string
+	for _, c := range os_ {
+		all = append(all, map[string]string{"id": c.ID, "verdict": c.Result.Verdict, "clause": strings.Join(c.Notes, "; "), "position": c.Pos})
+	}
 	path := fmt.Sprintf("/verif/replay/%s/%s.json", prop, sanitize(o.ID))
 	rec := map[string]any{
+		"failed_obligations_of_function": all,
 		"property":   prop,
 		"obligation": o.ID,
 		"function":   o.Fn,
